@@ -515,7 +515,7 @@ def _extract_item(it, repo, extra_sources, region_base, dropped, externals):
     return text, regs, item, src, start
 
 
-def build_unit(template_path, repo, out_path, extra_sources=None):
+def build_unit(template_path, repo, out_path, extra_sources=None, exclude=()):
     """Generate the Verus unit. Returns a dict describing the extraction."""
     tpl = open(template_path).read()
     # //@include <path relative to the template's directory>
@@ -537,6 +537,9 @@ def build_unit(template_path, repo, out_path, extra_sources=None):
             line += seg.count("\n")
             continue
         it = seg
+        if (it["name"] or it["anchor"]) in exclude:
+            skipped.append(f'{it["name"] or it["anchor"]}: left out after Verus rejected a construct in it')
+            continue
         try:
             text, regs, item, src, start = _extract_item(it, repo, extra_sources, len(regions), dropped, externals)
         except (ExtractError, ValueError, StopIteration) as ex:
